@@ -242,10 +242,47 @@ fn api_sequence(out: &mut Out, rng: &mut Rng) {
     let mut model = RefMsg::new();
     let mut m = RtMessage::with_capacity(4);
     let mut log: Vec<String> = Vec::new();
-    let nops = rng.range(2, 14);
-    for _ in 0..nops {
-        let t = tag_u32(KNOWN_TAGS[rng.usize_below(18)]);
-        let v = rng.rbytes(0, 4).iter().flat_map(|b| [*b; 4]).collect::<Vec<u8>>();
+    let nops = rng.range(2, 18);
+    // after a clear() the object is sometimes refilled with the tags and value lengths it held
+    // before (new contents): an object reused as a template, as the server does with its buffers
+    let mut refill: Vec<(u32, usize)> = Vec::new();
+    // when the message is observed (encoded / looked up): after every call, after a random third
+    // of the calls, or only right before a clear() and at the end of the sequence
+    let observe = rng.below(3);
+    for op in 0..nops {
+        let last = op + 1 == nops;
+        if !model.fields.is_empty() && rng.chance(1, 6) && !last {
+            if rng.chance(1, 2) {
+                refill = model.fields.iter().map(|(t, v)| (*t, v.len())).collect();
+                refill.reverse();
+            }
+            if observe == 2 {
+                let ok = matches!(catch_unwind(AssertUnwindSafe(|| m.encode())), Ok(Ok(ref e)) if *e == model.encode());
+                log.push("encode()".into());
+                if !ok {
+                    take_panics();
+                    out.violation("C05 api state differs before-clear", &format!("after ops {:?} encode() does not give the model's encoding", log), json!({"kind":"api-sequence","ops":log}));
+                    return;
+                }
+            }
+            m.clear();
+            model.fields.clear();
+            log.push("clear()".into());
+            out.obs("api_clears", 1);
+            if m.num_fields() != 0 || (observe == 0 && !matches!(catch_unwind(AssertUnwindSafe(|| m.encode())), Ok(Ok(ref e)) if *e == model.encode())) {
+                take_panics();
+                out.violation("C05 api state differs after-clear", &format!("after ops {:?} the cleared message is not empty / does not encode as the empty message", log), json!({"kind":"api-sequence","ops":log}));
+                return;
+            }
+            continue;
+        }
+        let (t, v) = match refill.pop() {
+            Some((t, l)) => {
+                out.obs("api_template_refills", 1);
+                (t, rng.bytes(l))
+            }
+            None => (tag_u32(KNOWN_TAGS[rng.usize_below(18)]), rng.rbytes(0, 4).iter().flat_map(|b| [*b; 4]).collect::<Vec<u8>>()),
+        };
         let expect_ok = model.fields.last().map(|(last, _)| t > *last).unwrap_or(true);
         let r = m.add_field(tag_of(t).unwrap(), &v);
         log.push(format!("add_field({}, {} bytes) -> {}", tag_name(t), v.len(), if r.is_ok() { "Ok" } else { "Err" }));
@@ -253,24 +290,44 @@ fn api_sequence(out: &mut Out, rng: &mut Rng) {
             model.fields.push((t, v));
         }
         out.obs(if expect_ok { "api_adds_expected_ok" } else { "api_adds_expected_refused" }, 1);
-        let desc = || json!({"kind":"api-sequence","ops":log});
         if r.is_ok() != expect_ok {
             out.violation(
                 &format!("C05 add_field {} out-of-order-or-duplicate", if r.is_ok() { "accepts" } else { "rejects-ascending" }),
                 &format!("after {:?}: add_field({}) returned {}", model.fields.iter().map(|f| tag_name(f.0)).collect::<Vec<_>>(), tag_name(t), if r.is_ok() { "Ok" } else { "Err" }),
-                desc(),
+                json!({"kind":"api-sequence","ops":log}),
             );
             return;
         }
-        // state after every call equals the model
+        // state after the call equals the model
+        let look = match observe {
+            0 => true,
+            1 => last || rng.chance(1, 3),
+            _ => last,
+        };
+        if !look {
+            continue;
+        }
+        log.push("encode()".into());
+        out.obs("api_states_observed", 1);
         let enc = catch_unwind(AssertUnwindSafe(|| m.encode()));
-        let state_ok = content_of(&m) == model.fields && m.num_fields() as usize == model.fields.len() && matches!(&enc, Ok(Ok(e)) if *e == model.encode());
+        let want = model.encode();
+        let framed = catch_unwind(AssertUnwindSafe(|| m.encode_framed()));
+        let lookups_ok = KNOWN_TAGS.iter().all(|k| {
+            let t = tag_u32(k);
+            m.get_field(tag_of(t).unwrap()) == model.fields.iter().find(|f| f.0 == t).map(|f| &f.1[..])
+        });
+        let state_ok = content_of(&m) == model.fields
+            && m.num_fields() as usize == model.fields.len()
+            && matches!(&enc, Ok(Ok(e)) if *e == want)
+            && matches!(&framed, Ok(Ok(e)) if *e == frame(&want))
+            && m.encoded_size() == want.len()
+            && lookups_ok;
         if !state_ok {
             take_panics();
             out.violation(
                 "C05 api state differs after-refused-or-accepted-add_field",
                 &format!("after ops {:?} the message holds tags {:?} / {} values; expected {:?}", log, m.tags().iter().map(|t| t.to_string()).collect::<Vec<_>>(), m.values().len(), model.fields.iter().map(|f| tag_name(f.0)).collect::<Vec<_>>()),
-                desc(),
+                json!({"kind":"api-sequence","ops":log}),
             );
             return;
         }
@@ -325,6 +382,26 @@ fn nontrivial_bytes(b: &[u8]) -> bool {
 }
 
 pub fn run(ctx: &Ctx, out: &mut Out, prop: &str) {
+    if ctx.replay.is_none() {
+        // neither the log level in force nor the identity of the calling thread may matter to the
+        // codec: shards cycle through the levels (records are formatted like a real logger would),
+        // and odd shards run on an unnamed thread
+        let (lvl, name) = [(log::LevelFilter::Off, "Off"), (log::LevelFilter::Trace, "Trace"), (log::LevelFilter::Debug, "Debug"), (log::LevelFilter::Info, "Info")][(ctx.shard % 4) as usize];
+        crate::inproc::install_logger(lvl, false);
+        out.obs(&format!("shards_at_log_level_{}", name), 1);
+        if ctx.shard % 2 == 1 {
+            out.obs("shards_on_unnamed_thread", 1);
+            std::thread::scope(|s| {
+                let h = std::thread::Builder::new().stack_size(16 << 20).spawn_scoped(s, || run_inner(ctx, out, prop)).expect("spawn");
+                let _ = h.join();
+            });
+            return;
+        }
+    }
+    run_inner(ctx, out, prop)
+}
+
+fn run_inner(ctx: &Ctx, out: &mut Out, prop: &str) {
     if let Some(r) = &ctx.replay {
         if r["kind"] == "nestprobe" {
             let exe = std::env::current_exe().unwrap();
@@ -411,6 +488,37 @@ pub fn run(ctx: &Ctx, out: &mut Out, prop: &str) {
         if k % 1024 == 0 && !ctx.time_left() {
             out.note("mutant loop cut by wall budget");
             break;
+        }
+    }
+
+    // (3a) valid encodings at and around 64 KiB (and a few far beyond): accepted, canonical
+    for k in 0..ctx.share(64, 640) {
+        let total = *rng.pick(&[65_528usize, 65_532, 65_536, 65_536, 65_540, 65_544, 131_072, 1 << 20]);
+        let nf = if k % 3 == 0 { 1 } else { rng.range(2, 18) as usize };
+        let hdr = if nf == 1 { 8 } else { 8 * nf };
+        let mut idx: Vec<usize> = (0..18).collect();
+        rng.shuffle(&mut idx);
+        let mut chosen: Vec<usize> = idx.into_iter().take(nf).collect();
+        chosen.sort();
+        // split the value area into nf aligned parts
+        let words = (total - hdr) / 4;
+        let mut cuts: Vec<usize> = (0..nf - 1).map(|_| rng.usize_below(words + 1)).collect();
+        cuts.sort();
+        cuts.push(words);
+        let mut rm = RefMsg::new();
+        let mut prev = 0;
+        for (i, c) in chosen.iter().enumerate() {
+            let l = (cuts[i] - prev) * 4;
+            prev = cuts[i];
+            rm.set(tag_u32(KNOWN_TAGS[*c]), &rng.bytes(l));
+        }
+        let b = rm.encode();
+        out.case(fnv64(&b), true);
+        out.obs(&format!("large_valid_len_{}", b.len()), 1);
+        out.obs_max("input_len", b.len() as i64);
+        let acc = check_decode(out, prop, &b, "large-valid");
+        if !acc {
+            out.obs("large_valid_refused", 1);
         }
     }
 
